@@ -88,7 +88,7 @@ pub fn run(tier: &str, seed: u64, dir: &str) {
             let mut h = Hist::new("C12", region, 20, 0, rng.next() & 0xffffff, &[], None);
             h.go_live();
             if i % 5 == 0 {
-                h.sess(rng.below(1000) as u32, None, *rng.pick(&[0u32, 60, 63, 64, 95, 96, 127, 200]), false, &[], rng.chance(1, 2));
+                h.sess(rng.below(1000) as u32, None, *rng.pick(&[0u32, 60, 63, 64, 95, 96, 127, 200, 4294967294, 4294967295]), false, &[], rng.chance(1, 2));
             } else {
                 h.abp();
             }
